@@ -1,5 +1,5 @@
 #!/venv/bin/python
-"""Standalone reproducers of the defects found in medialab/hyphe-traph (F1..F9).
+"""Standalone reproducers of the defects found in medialab/hyphe-traph (F1..F11).
 usage: repro.py F1 [repo_path]   exit 0 = property holds on that input, 1 = defect shown."""
 import os, shutil, sys, tempfile, warnings
 repo = sys.argv[2] if len(sys.argv) > 2 else "/repo"
@@ -122,6 +122,73 @@ def F9():
     except ZeroDivisionError as e:
         print("metrics() on an empty index:", type(e).__name__, e)
         return False
+
+def _interleave(t, gens, sched, plain):
+    """advance the generators as the schedule says (every loop iteration a yield point), then drain them in index order;
+    returns the results and the uninterrupted answer plain() at every moment while generator 0 runs"""
+    from traph.traph_iterator_state import TraphIteratorState as TIS
+    orig = TIS.should_yield
+
+    def always(self, f=1000):
+        self.n_iterations += 1
+        return True
+    done, res, moments = [False] * len(gens), [None] * len(gens), []
+
+    def snap():
+        TIS.should_yield = orig
+        moments.append(plain())
+        TIS.should_yield = always
+
+    def adv(i):
+        if done[i]:
+            return
+        try:
+            st = next(gens[i])
+            if st.done:
+                done[i], res[i] = True, st.result
+        except StopIteration:
+            done[i] = True
+        if not done[0]:
+            snap()
+    TIS.should_yield = always
+    try:
+        snap()
+        for i in sched:
+            adv(i)
+        for i in range(len(gens)):
+            while not done[i]:
+                adv(i)
+    finally:
+        TIS.should_yield = orig
+    return res, moments
+
+def F10():
+    # witness of the Coq theorem SchedRefute.C16_network_no_moment_refuted
+    t = mk(None)
+    S, T = b"s:https|h:com|h:a|p:m|p:x|", b"s:http|h:com|h:a|p:m|p:y|"
+    t.add_page(S); t.add_page(T); t.add_links([(S, T)])
+    edges = lambda g: set((a, b) for a, c in g.items() for b in c if not isinstance(b, str))
+    gens = [t.get_webentities_links_iter(out=True, include_auto=False),
+            t.add_webentity_creation_rule_iter(b"s:http|h:com|h:a|", rule_regex(2))]
+    res, moments = _interleave(t, gens, [0, 1, 1, 1, 1, 1, 0, 0, 0], lambda: edges(t.get_webentities_links(out=True, include_auto=False)))
+    got = edges(res[0])
+    print("interleaved network query:", sorted(got), " uninterrupted at the %d moments:" % len(moments), [sorted(m) for m in moments])
+    return got <= set().union(*moments)
+
+def F11():
+    # witness of the Coq theorem SchedRefute.C16_pagelinks_outbound_no_moment_refuted
+    t = Traph(folder=None, overwrite=True, default_webentity_creation_rule=rule_regex(0),
+              webentity_creation_rules={b"s:http|h:com|h:a|": rule_regex(2)})
+    A, B, C_ = b"s:https|h:com|h:a|p:m|p:n|", b"s:https|h:com|h:a|p:m|", b"s:https|h:com|h:a|p:k|"
+    t.add_pages([A, B, C_]); t.add_links([(A, B), (A, C_)])
+    ps = [b"s:https|h:com|h:a|"]
+    q = lambda: set(map(tuple, t.get_webentity_pagelinks(1, ps, include_inbound=False, include_internal=False, include_outbound=True)))
+    gens = [t.get_webentity_pagelinks_iter(1, ps, include_inbound=False, include_internal=False, include_outbound=True),
+            t.index_batch_crawl_iter({b"s:http|h:com|h:a|p:m|p:q|": []}, 1)]
+    res, moments = _interleave(t, gens, [0, 1, 1, 1, 0, 0, 0], q)
+    got = set(map(tuple, res[0]))
+    print("interleaved outbound page-link query:", sorted(got), " uninterrupted at the %d moments:" % len(moments), [sorted(m) for m in moments])
+    return got <= set().union(*moments)
 
 if __name__ == "__main__":
     ok = globals()[sys.argv[1]]()
